@@ -121,6 +121,12 @@ def lines_of(case, idx, want_den):
     rr = [str(len(case["runs"]))]
     for r in case["runs"]:
         rr.append(("%s %d %d %d %s" % (r["mode"], r["l"][0], r["l"][1], len(r["ex"]), " ".join(r["ex"]))).strip())
+    if "long" in case:
+        # the harness runs the whole history on one object; the model evaluates the selected runs
+        lg = case["long"]
+        hr = "1 H %s %d %d %s %d %s" % (lg["obj"], lg["n"], len(lg["template"]), " ".join(lg["template"]),
+                                        len(lg["taken"]), " ".join(map(str, lg["taken"])))
+        return " ".join(h + hc + [hr.strip()]), " ".join(m + mc + rr)
     return " ".join(h + hc + rr), " ".join(m + mc + rr)
 
 
@@ -258,8 +264,11 @@ def function_templates(cat, doms):
     return out
 
 
-def gen_random_case(rnd, size_class):
-    ncats = rnd.choice([1, 1, 2, 2, 3, 3, 4, 5])
+def gen_random_case(rnd, size_class, full_rows=False):
+    """full_rows: every row has a cell in every category and the arguments of the different
+    categories are drawn from the same few rows, so that one run reaches the same row index in
+    several categories (the memo must be keyed by row AND category)"""
+    ncats = rnd.choice([1, 1, 2, 2, 3, 3, 4, 5]) if not full_rows else rnd.choice([2, 2, 3, 4])
     doms = [rnd.choice(["real", "real", "int", "str"]) for _ in range(ncats)]
     if ncats == 1:
         doms = [rnd.choice(["real", "real", "real", "int"])]
@@ -277,12 +286,12 @@ def gen_random_case(rnd, size_class):
     for v in range(nvars):
         variables.append({"k": "V", "id": v, "cat": rnd.randrange(ncats)})
     templates = [function_templates(c, doms) for c in range(ncats)]
-    window = rnd.choice([2, 3, 4, 8, 1000])
+    window = rnd.choice([2, 3, 4, 8, 1000]) if not full_rows else rnd.choice([1, 2, 2, 3])
     populated = {c: [] for c in range(ncats)}      # rows (descending order of creation) having a cell of category c
     cells = []
     for row in range(nrows - 1, -1, -1):
         in_patch = row >= nrows - patch
-        if row == nrows - 1:
+        if row == nrows - 1 or full_rows:
             cats_here = list(range(ncats))
         else:
             k = 1 if ncats == 1 else rnd.choice([1, 1, 1, 2, ncats])
@@ -309,7 +318,7 @@ def gen_random_case(rnd, size_class):
     row0 = [c for c in cells if c["row"] == 0]
     bc = rnd.choice(row0)
     case = {"ncats": ncats, "nrows": nrows, "best": [0, sym_info(bc["sym"])[0]], "cells": cells,
-            "family": "random", "doms": doms, "vars": variables}
+            "family": "rowshare" if full_rows else "random", "doms": doms, "vars": variables}
     # runs
     loci = [(c["row"], sym_info(c["sym"])[0]) for c in cells]
     nruns = rnd.randint(1, 8) if size_class != "large" else rnd.randint(1, 3)
@@ -433,6 +442,99 @@ def gen_lazy_case(rnd):
             "poison_arg": args.index(POISON), "taken_arg": (args.index(T) if T in args else None)}
 
 
+def long_example(lg, r):
+    tk = r in lg["taken"]
+    out = []
+    for t in lg["template"]:
+        if t == "#":
+            out.append(dtok(float(r)))
+        elif t == "#i":
+            out.append("i:%d" % r)
+        elif t.startswith("@"):
+            a, b = t[1:].split("|")
+            out.append(a if tk else b)
+        else:
+            out.append(t)
+    return out
+
+
+def gen_long_case(rnd, taken, n):
+    """one persistent object run n times on a tiny program whose conditional takes its rare
+    branch exactly on the runs in `taken`; the rare branch is a sub-expression of the run number,
+    so a memo entry that survives from an earlier run (or from construction) gives a different value"""
+    kind = rnd.choice(["real_ifl", "real_ife", "real_ifz"])
+    rare_then = rnd.random() < 0.5
+    kd = lambda x: {"k": "KD", "text": repr(x), "cat": 0}
+    then_row, else_row = 3, 4
+    cond = {"real_ifl": [1, 2, then_row, else_row], "real_ife": [1, 2, then_row, else_row],
+            "real_ifz": [1, then_row, else_row]}[kind]
+    cv = [0, 0] if PRIMS[kind][0] in TWO else [0]
+    rare_ops = rnd.choice([("real_add", "real_mul"), ("real_sub", "real_add"), ("real_mul", "real_sub")])
+    cells = [
+        {"row": 0, "sym": P(kind, cv), "par": None, "args": cond},
+        {"row": 1, "sym": {"k": "V", "id": 0, "cat": 0}, "par": None, "args": []},
+        {"row": 2, "sym": kd(0.5 if kind == "real_ifl" else 0.0), "par": None, "args": []},
+        {"row": 3, "sym": P(rare_ops[0], [0]), "par": None, "args": [5, 6]},
+        {"row": 4, "sym": P(rare_ops[1], [0]), "par": None, "args": [5, 6]},
+        {"row": 5, "sym": {"k": "V", "id": 1, "cat": 0}, "par": None, "args": []},
+        {"row": 6, "sym": kd(float(rnd.randint(2, 9))), "par": None, "args": []},
+    ]
+    # x0 = 0 selects THEN for the three conditionals, x0 = 1 selects ELSE
+    on, off = (dtok(0.0), dtok(1.0)) if rare_then else (dtok(1.0), dtok(0.0))
+    lg = {"obj": rnd.choice("sL"), "n": n, "template": ["@%s|%s" % (on, off), "#"], "taken": sorted(taken)}
+    selected = sorted(set(taken) | {1, 2, n} | {t - 1 for t in taken if t > 1} | {t + 1 for t in taken if t < n})
+    runs = [{"mode": "e", "l": [0, 0], "ex": long_example(lg, r)} for r in selected]
+    lg["selected"] = selected
+    return {"ncats": 1, "nrows": 7, "best": [0, 0], "cells": cells, "runs": runs, "family": "long", "long": lg}
+
+
+def long_schedules(ck):
+    """(taken runs, history length): a rare branch first taken at run p, and taken at runs a and
+    a + p, for p a power of two (a wrapping run counter / generation stamp of 8 or 16 bits)"""
+    rnd = ck.rng
+    out = []
+    periods = [2 ** 8, 2 ** 16]
+    if ck.thorough:
+        periods = [2 ** k for k in range(4, 18)] + [2 ** 17, 3 * 2 ** 16]
+    for p in periods:
+        a = rnd.randint(1, 9)
+        out.append(([p], p + 2))
+        out.append(([a, a + p], a + p + 2))
+        if ck.thorough:
+            out.append(([p - 1, 2 * p - 1], 2 * p + 1))
+            out.append(([a, a + 2 * p], a + 2 * p + 1))
+    # a history with random rare runs
+    n = 3000 if not ck.thorough else 200000
+    out.append((sorted(rnd.sample(range(1, n), 6)), n))
+    return out
+
+
+def unshare(case):
+    """the active tree of the case written as a tree: one row per node, pre-order; None if too big"""
+    cm = cell_map(case)
+    root = tuple(case["best"])
+    if tree_sizes(case).get(root, 10 ** 9) > 180:
+        return None
+    runs = [dict(r) for r in case["runs"] if r["mode"] in "bBesLC"]
+    if not runs:
+        return None
+    cells = []
+
+    def emit(l):
+        row = len(cells)
+        c = cm[l]
+        new = {"row": row, "sym": c["sym"], "par": c["par"], "args": []}
+        cells.append(new)
+        for a in arg_loci(c):
+            new["args"].append(emit(a))
+        return row
+    emit(root)
+    for r in runs:
+        r["l"] = [0, root[1]]
+    return {"ncats": case["ncats"], "nrows": len(cells), "best": [0, root[1]], "cells": cells, "runs": runs,
+            "family": "layout", "how": "unshare"}
+
+
 def relayout(rnd, case):
     """(O3) the same active tree in another genome: either fully unshared (one
     row per tree node, pre-order) or shifted with junk rows and rewritten
@@ -445,18 +547,7 @@ def relayout(rnd, case):
         return None
     how = rnd.choice(["unshare", "junk"])
     if how == "unshare" and sizes[root] <= 180:
-        cells = []
-
-        def emit(l):
-            row = len(cells)
-            c = cm[l]
-            new = {"row": row, "sym": c["sym"], "par": c["par"], "args": []}
-            cells.append(new)
-            for a in arg_loci(c):
-                new["args"].append(emit(a))
-            return row
-        emit(root)
-        out = {"ncats": case["ncats"], "nrows": len(cells), "best": [0, root[1]], "cells": cells}
+        return unshare(case)
     else:
         how = "junk"
         act, _ = active(case, root)
@@ -528,7 +619,7 @@ def expected_cats(case):
 
 
 def strip_case(case):
-    return {k: case[k] for k in ("ncats", "nrows", "best", "cells", "runs", "family", "expect", "what", "how", "base", "poison_arg", "taken_arg")
+    return {k: case[k] for k in ("ncats", "nrows", "best", "cells", "runs", "family", "expect", "what", "how", "base", "poison_arg", "taken_arg", "long")
             if k in case}
 
 
@@ -547,6 +638,12 @@ def generate(ck):
         base.append(gen_random_case(rnd, "medium"))
     for _ in range(40 * n):
         base.append(gen_random_case(rnd, "large"))
+    for _ in range(500 * n):
+        base.append(gen_random_case(rnd, "small", full_rows=True))
+    for _ in range(150 * n):
+        base.append(gen_random_case(rnd, "medium", full_rows=True))
+    for taken, hn in long_schedules(ck):
+        cases.append(gen_long_case(rnd, taken, hn))
     for b in base:
         cases.append(b)
         if rnd.random() < 0.4:
@@ -611,6 +708,9 @@ def judge(cases, env, sink, hist):
         if ho.startswith("BADLINE") or mo.startswith("BADLINE"):
             sink.add_diff({"case": hl[k][:300]}, mo[:200], ho[:200], "harness or model driver rejected the case")
             continue
+        if "long" in c:
+            judge_long(c, ho, mo, rep, sink, hist)
+            continue
         head, hruns = parse_out(ho)
         mhead, mruns = parse_out(mo)
         parsed[k] = hruns
@@ -628,6 +728,10 @@ def judge(cases, env, sink, hist):
             bump("outcome", "THROW" if hr == "THROW" else hr[0])
             rj = dict(rep, run_index=j, mode=run_["mode"])
             # correspondence: machine model vs implementation (result and state)
+            if hs == "?":
+                # the private memo / ip_ no longer have the modelled shape: results only
+                bump("outcome", "state-not-observable")
+                ms = "?"
             if hr != mr or hs != ms:
                 sink.add_diff({"case": hl[k][:400], "run": j}, "R %s S %s" % (mr, ms), "R %s S %s" % (hr, hs))
             # O1: the denotation of the unfolded tree
@@ -681,6 +785,45 @@ def judge(cases, env, sink, hist):
             sink.sample({"family": c["family"], "harness_line": hl[k][:600], "impl": ho[:400], "model": mo[:400]})
 
 
+def judge_long(c, ho, mo, rep, sink, hist):
+    """one object run n times: every run was compared with a fresh interpreter inside the harness
+    (O2); the runs on which the rare branch is taken are compared with the tree denotation (O1)"""
+    lg = c["long"]
+    head, rest = ho.split(" | ", 1)
+    w = rest.split(" ")
+    n, nmis = int(w[1]), int(w[2])
+    shown = {}
+    for t in w[3:]:
+        r, body = t.split("=", 1)
+        used, fresh = body.split("~", 1)
+        shown[int(r)] = (used, fresh)
+    sink.count(n)
+    hist["mode"]["H"] = hist["mode"].get("H", 0) + n
+    hist["family"]["long"] = hist["family"].get("long", 0)
+    sink.nontriv("long %s %s" % (lg["n"], lg["taken"]))
+    _, mruns = parse_out(mo)
+    den = {r: mruns[j][1] for j, r in enumerate(lg["selected"])}
+    mach = {r: mruns[j][0] for j, r in enumerate(lg["selected"])}
+    desc = "one %s object run %d times, rare branch taken at runs %s" % (
+        "src_interpreter" if lg["obj"] == "s" else "reg_lambda_f", n, lg["taken"])
+    for r, (used, fresh) in sorted(shown.items()):
+        ex = long_example(lg, r)
+        rj = dict(rep, run_number=r, example=ex, history=desc)
+        if r in den:
+            hist["outcome"]["judged-against-den"] = hist["outcome"].get("judged-against-den", 0) + 1
+            if used != mach[r]:
+                sink.add_diff({"case": rep["harness_line"][:300], "run": r}, mach[r], used)
+            if used != den[r]:
+                sink.add_violation("denotation:H", "%s: run #%d on example %s returns %s, the recursive evaluation of "
+                                   "the active tree gives %s" % (desc, r, ex, used, den[r]),
+                                   dict(rj, got=used, denotation=den[r]))
+        if used != fresh:
+            sink.add_violation("history:H", "%s: run #%d on example %s returns %s, a fresh interpreter returns %s"
+                               % (desc, r, ex, used, fresh), dict(rj, got=used, fresh=fresh))
+    if nmis and not any(u != f for u, f in shown.values()):
+        sink.add_violation("history:H", "%s: %d runs differ from a fresh interpreter" % (desc, nmis), dict(rep))
+
+
 def compact(case):
     """drop the cells that no run can reach, renumber the rows densely"""
     roots = [tuple(case["best"])] + [tuple(r["l"]) for r in case["runs"]]
@@ -729,10 +872,61 @@ def shrink(case, oracle, env, run_index):
             cur = cand
         else:
             i += 1
+    # re-root at an argument of the root while the oracle still fails
+    if "expect" not in cur and "long" not in cur:
+        progress = True
+        while progress:
+            progress = False
+            cm = cell_map(cur)
+            for a in arg_loci(cm[tuple(cur["best"])]):
+                cand = dict(cur, best=list(a),
+                            runs=[dict(r, l=list(a)) if r["mode"] not in "kl" else r for r in cur["runs"]])
+                if fails(cand):
+                    cur, progress = cand, True
+                    break
     cand = compact(cur)
     if cand is not None and fails(cand):
         cur = cand
     return cur
+
+
+def shrink_pair(base, env):
+    """layout oracle: shrink the base program while it and its unshared twin still disagree"""
+    def fails(b):
+        v = unshare(b)
+        if v is None:
+            return False
+        sink = Collect()
+        try:
+            judge([b, dict(v, base=0)], env, sink, {"family": {}, "mode": {}, "rows": {}, "cats": {}, "outcome": {}})
+        except Exception:
+            return False
+        return any(x["key"].startswith("layout") for x in sink.violations)
+    cur = dict(base)
+    cur.pop("base", None)
+    cur["runs"] = [r for r in cur["runs"] if r["mode"] in "bBesLC"]
+    if not fails(cur):
+        return None
+    i = 0
+    while len(cur["runs"]) > 1 and i < len(cur["runs"]):
+        cand = dict(cur, runs=[r for j, r in enumerate(cur["runs"]) if j != i])
+        if fails(cand):
+            cur = cand
+        else:
+            i += 1
+    progress = True
+    while progress:
+        progress = False
+        cm = cell_map(cur)
+        for a in arg_loci(cm[tuple(cur["best"])]):
+            cand = dict(cur, best=list(a), runs=[dict(r, l=list(a)) for r in cur["runs"]])
+            if fails(cand):
+                cur, progress = cand, True
+                break
+    cand = compact(cur)
+    if cand is not None and fails(cand):
+        cur = cand
+    return [cur, dict(unshare(cur), base=0)]
 
 
 def _retry(fn, *a):
@@ -794,7 +988,18 @@ def run(ck):
     for v in list(ck.violations):
         oracle = v["key"].split(":")[0]
         rp = v["replay"]
-        if oracle in done or oracle == "layout" or len(rp.get("cases", [])) != 1:
+        if oracle in done or oracle == "sanitizer" and len(done) > 3:
+            continue
+        if oracle == "layout":
+            done.add(oracle)
+            pair = shrink_pair(rp["cases"][0], env)
+            if pair is not None:
+                rp["shrunk"] = {"cases": [strip_case(pair[0]), dict(strip_case(pair[1]), base=0)],
+                                "harness_lines": [lines_of(x, idx, False)[0] for x in pair],
+                                "note": "the first program and its unshared twin (same active tree, one row per "
+                                        "node) still give different results"}
+            continue
+        if len(rp.get("cases", [])) != 1 or "long" in rp["cases"][0]:
             continue
         done.add(oracle)
         small = shrink(rp["cases"][0], oracle, env, rp.get("run_index"))
@@ -802,6 +1007,11 @@ def run(ck):
             h, _ = lines_of(small, idx, want_den(small))
             rp["shrunk"] = {"cases": [strip_case(small)], "harness_line": h,
                             "note": "same oracle still fails on this smaller case (replay it by putting it in 'cases')"}
+    if hist["outcome"].get("state-not-observable"):
+        ck.add_unshown("correspondence", "memo-state",
+                       "interpreter<i_mep>::cache_/ip_ no longer have the shape the model mirrors (rows x categories "
+                       "matrix of {valid, value}, locus): the state-level correspondence could not be established; "
+                       "results were still compared and judged by the oracles")
     ck.coverage["histogram"] = hist
     ck.coverage["runs_judged_against_tree_denotation"] = hist["outcome"].get("judged-against-den", 0)
     ck.coverage["programs"] = len(cases)
@@ -812,5 +1022,8 @@ def run(ck):
              "rewritten introns); each program is run 1..8 times through vita::run, one src_interpreter / "
              "interpreter / reg_lambda_f object, get_block and run_locus on random loci, on examples mixing "
              "+-0, denormals, 1e+-300, ints, strings, empty and ill-typed values; evaluations = runs; "
+             "plus genomes whose rows are populated in every category with arguments of different categories drawn "
+             "from the same rows, and long histories (one object run 2^8 / 2^16 (+-) times, a lazily evaluated branch "
+             "taken at run p, or at runs a and a+p), every run compared in the harness with a fresh interpreter; "
              "non-trivial = the active DAG has a locus reached from two different parents, or one persistent "
              "object is run on two different examples; distinct = distinct case lines")
